@@ -333,7 +333,97 @@ func init() {
 			if p := c.Prog("amd64"); p != nil {
 				c.Clauses = append(c.Clauses, prop+".fullwidth: a verdict computed from an OR-accumulated difference (v |= a[i]^b[i]) depends on every bit of the accumulator (bit-level dependence through shifts, masks, negation, narrowing conversions and calls)")
 				checkFullWidth(c, p, prop, sc.pre, sc.floor)
+				if prop == "C12" {
+					checkRawEq(c, p, "C12.canon")
+				}
 			}
 		}
+	}
+}
+
+// RAWEQ: field elements with a redundant representation are compared with == only after both have been
+// reduced. fp25519.Elt and fp448.Elt are byte arrays holding a value below 2^255 resp. 2^448; two arrays
+// with different bytes can denote the same residue. A comparison of a freshly reduced value with an operand
+// that was not reduced fails for every non-canonical operand.
+var rawEqExceptions = map[string]string{
+	"(*ecc/goldilocks.Point).IsIdentity": "compares y and z as computed; both come out of the same multiplication chain and a non-canonical representative has probability about 2^-224 (listed in DESIGN 8.5)",
+}
+
+func checkRawEq(c *Ctx, p *Program, rule string) {
+	isElt := func(t types.Type) bool {
+		n, ok := t.(*types.Named)
+		if !ok || n.Obj().Pkg() == nil {
+			return false
+		}
+		pp := n.Obj().Pkg().Path()
+		return n.Obj().Name() == "Elt" && (strings.HasSuffix(pp, "math/fp25519") || strings.HasSuffix(pp, "math/fp448"))
+	}
+	var fs []*ssa.Function
+	for f := range p.AllFuncs {
+		if f.Blocks != nil && isCirclFunc(f) && sourceFunc(f) && !strings.Contains(funcPkgPath(f), "/internal/test") {
+			fs = append(fs, f)
+		}
+	}
+	sort.Slice(fs, func(i, j int) bool { return fs[i].String() < fs[j].String() })
+	n, nbad := 0, 0
+	for _, f := range fs {
+		for _, b := range f.Blocks {
+			for _, in := range b.Instrs {
+				bo, ok := in.(*ssa.BinOp)
+				if !ok || (bo.Op != token.EQL && bo.Op != token.NEQ) || !isElt(bo.X.Type()) {
+					continue
+				}
+				n++
+				var raw []string
+				for _, o := range []ssa.Value{bo.X, bo.Y} {
+					ld, ok := o.(*ssa.UnOp)
+					if !ok || ld.Op != token.MUL {
+						continue // a constant or a value
+					}
+					if _, isGlobal := ld.X.(*ssa.Global); isGlobal {
+						continue // a package-level constant
+					}
+					if d := descVal(ld.X); strings.HasPrefix(d, "&[") || strings.HasPrefix(d, `&"`) {
+						continue // a literal written out in canonical form
+					}
+					reduced := false
+					for _, bb := range f.Blocks {
+						for _, in2 := range bb.Instrs {
+							ci, ok := in2.(ssa.CallInstruction)
+							if !ok || !instrDominates(in2, in) {
+								continue
+							}
+							nm := p.staticCalleeName(ci.Common())
+							if !(strings.HasSuffix(nm, ".Modp") || strings.HasSuffix(nm, ".modp") || strings.HasSuffix(nm, ".ToBytes")) || len(ci.Common().Args) == 0 {
+								continue
+							}
+							for _, a := range ci.Common().Args {
+								if sameLocation(a, ld.X, 0) {
+									reduced = true
+								}
+							}
+						}
+					}
+					if !reduced {
+						raw = append(raw, descVal(ld.X))
+					}
+				}
+				construct := fname(f) + ": field elements compared with == have both been reduced"
+				if len(raw) == 0 {
+					c.ok(rule, construct, "both operands are reduced before the comparison at "+p.pos(bo.Pos()), p.pos(bo.Pos()))
+					continue
+				}
+				if why, ok := rawEqExceptions[fname(f)]; ok {
+					c.ok(rule, construct, "exception: "+why, p.pos(bo.Pos()))
+					continue
+				}
+				nbad++
+				c.bad(rule, construct, fmt.Sprintf("at %s the operand(s) %s are compared as stored: a non-canonical representative of the same residue compares unequal", p.pos(bo.Pos()), strings.Join(raw, ", ")), p.pos(bo.Pos()))
+			}
+		}
+	}
+	c.count("raw_elt_comparisons", n)
+	if nbad == 0 {
+		c.ok(rule, "no == on unreduced fp25519 / fp448 elements", fmt.Sprintf("%d comparisons of Elt values inspected", n), "")
 	}
 }
